@@ -1,9 +1,70 @@
 import Drivers.Proto
-/-! Model driver for property C14 (stub: no model operations registered yet). -/
-open Lean Proto
+import St4sd.Model.FsAtomic
+import St4sd.Model.StatusFile
+/-! Model driver for property C14.  Every text travels as a JSON array of code points (no
+dependence on JSON string escaping of control / non-BMP characters). -/
+open Lean Proto St4sd.FsAtomic St4sd.StatusFile
+
+def cps (l : List Nat) : List Char := l.map Char.ofNat
+def jcps (s : List Char) : Json := jarr (s.map fun c => jnat c.toNat)
+
+def getCps (j : Json) (k : String) : Except String (List Char) := do
+  return cps (← getNatList j k)
+
+def asCps (j : Json) : Except String (List Char) := do
+  return cps (← (← j.getArr?).toList.mapM (·.getNat?))
+
+def getPairs (j : Json) (k : String) : Except String Data := do
+  (← getArr j k).mapM fun p => do
+    match (← p.getArr?).toList with
+    | [a, b] => return (← asCps a, ← asCps b)
+    | _ => throw "pair expected"
+
+def jpairs (d : Data) : Json := jarr (d.map fun p => jarr [jcps p.1, jcps p.2])
+
+def parseOp (j : Json) : Except String Op := do
+  let kind ← getStr j "k"
+  match kind with
+  | "create" => return .create (← getCps j "p")
+  | "append" => return .append (← getCps j "p") (← getCps j "b")
+  | "close" => return .close (← getCps j "p")
+  | "rename" => return .rename (← getCps j "a") (← getCps j "b")
+  | "remove" => return .remove (← getCps j "p")
+  | _ => throw s!"unknown fs op {kind}"
+
+def initFs (files : List (Path × Content)) : Fs := fun q =>
+  match files.find? (fun f => f.1 == q) with
+  | some f => some f.2
+  | none => none
 
 def handle (j : Json) : Except String Json := do
   let op ← getStr j "op"
-  throw s!"unknown op {op}"
+  match op with
+  | "trace" =>
+    let t ← getCps j "target"
+    let files ← getPairs j "files"
+    let ops ← (← getArr j "ops").mapM parseOp
+    let fs := initFs files
+    return jobj [("atomic", jbool (isAtomicProtocol ops t)),
+                 ("states", jarr ((crashStates ops fs t).map (jopt jcps))),
+                 ("old", jopt jcps (fs t)),
+                 ("final", jopt jcps (run ops fs t)),
+                 ("first_unsafe", jopt jnat (firstUnsafe ops fs t))]
+  | "escape" => return jobj [("out", jcps (escape (← getCps j "s")))]
+  | "unescape" => return jobj [("out", jopt jcps (unescape (← getCps j "s")))]
+  | "encode" => return jobj [("text", jcps (encode (← getPairs j "pairs")))]
+  | "decode" => return jobj [("pairs", jopt jpairs (decode (← getCps j "text")))]
+  | "history" =>
+    let w ← getStr j "writer"
+    let init ← getPairs j "init"
+    let rounds ← (← getArr j "rounds").mapM fun r => do
+      (← r.getArr?).toList.mapM fun p => do
+        match (← p.getArr?).toList with
+        | [a, b] => return (← asCps a, ← asCps b)
+        | _ => throw "pair expected"
+    let res := runHistory (if w == "old" then writeOld else writeNew) init rounds
+    return jobj [("text", jopt jcps res.1), ("data", jpairs res.2),
+                 ("decoded", jopt jpairs (res.1.bind decode))]
+  | _ => throw s!"unknown op {op}"
 
 def main : IO Unit := serve handle
